@@ -13,11 +13,31 @@ type cacheControl struct {
 	maxAge  time.Duration
 }
 
+// Splits a Cache-Control value into its directives: at the commas that are not inside a
+// quoted-string (an extension directive like ext="a, max-age=3600" is one directive, and what is
+// inside its quotes is not a directive of its own).
+func splitDirectives(ccHeader string) []string {
+	var directives []string
+	start, quoted := 0, false
+	for i := 0; i < len(ccHeader); i++ {
+		switch {
+		case quoted && ccHeader[i] == '\\' && i+1 < len(ccHeader):
+			i++ // quoted-pair
+		case ccHeader[i] == '"':
+			quoted = !quoted
+		case ccHeader[i] == ',' && !quoted:
+			directives = append(directives, ccHeader[start:i])
+			start = i + 1
+		}
+	}
+	return append(directives, ccHeader[start:])
+}
+
 func parseCacheControl(ccHeader string) (cacheControl, error) {
 	cc := cacheControl{}
 	var parseErr error
 	// Parse the Cache-Control header for max-age directive
-	for directive := range strings.SplitSeq(ccHeader, ",") {
+	for _, directive := range splitDirectives(ccHeader) {
 		directive = strings.TrimSpace(directive)
 		// Directive names are case-insensitive (RFC 9111 section 5.2).
 		name, value, hasValue := strings.Cut(directive, "=")
